@@ -37,6 +37,15 @@ ASSUME \A x, y \in S : LET w == ZCommonWidth(F(x), F(y))
                           /\ ZEq(ZBitOp("xor", TRUE, w, F(x), F(y)), ZSub(ZBitOp("or", TRUE, w, F(x), F(y)), ZBitOp("and", TRUE, w, F(x), F(y))))
 ASSUME \A x \in NatS : MBitLen(F(x).m) = (CHOOSE k \in 0..31 : (IF k = 0 THEN x = 0 ELSE 2^(k-1) <= x) /\ (k = 31 \/ x < 2^k))
 ASSUME \A x \in NatS : ZIsFloorSqrt(F(x), Z(FALSE, MSqrt(F(x).m)))
+\* table-driven bit operations = reference definitions
+BT == BitTables
+ASSUME \A x, y \in NatS : /\ MAndT(BT, F(x).m, F(y).m) = MAnd(F(x).m, F(y).m)
+                          /\ MOrT(BT, F(x).m, F(y).m) = MOr(F(x).m, F(y).m)
+                          /\ MXorT(BT, F(x).m, F(y).m) = MXor(F(x).m, F(y).m)
+ASSUME \A x \in {0, 1, 31, 32, 1023, 1024, 21845, 32767}, y \in {0, 1, 31, 32, 1023, 1024, 10922, 32767} :
+          /\ LimbOpT(BT.and, x, y) = (x & y) /\ LimbOpT(BT.or, x, y) = (x | y) /\ LimbOpT(BT.xor, x, y) = (x ^^ y)
+ASSUME \A x, y \in S : \A op \in {"and", "or", "xor"} :
+          ZEq(ZBitOpT(BT, op, TRUE, 40, F(x), F(y)), ZBitOp(op, TRUE, 40, F(x), F(y)))
 \* multi-limb identities
 ASSUME ZEq(ZFromHex("ffffffffffffffffffffffffffffffff"), ZSub(ZPow2(128), ZOne))
 ASSUME ZEq(ZFromDec("-340282366920938463463374607431768211456"), ZNeg(ZPow2(128)))
